@@ -21,12 +21,24 @@ def distinct_enums(ck, u, rule, prefixes, where):
 class _Reeval:
     """proxy Check: runs another property's rules and keeps, under a rule id of the calling property, only the instances
     the caller depends on.  Holds are counted, violations and analysis failures are forwarded with their original text."""
-    def __init__(self, ck, new_rule, accept):
+    def __init__(self, ck, new_rule, accept, origin=''):
         self._ck, self._new, self._accept = ck, new_rule, accept
+        # a recorded known finding is reported once, under the property it belongs to - not again under every property
+        # that re-evaluates the rule (the dependent property says so in a note)
+        self._known = set()
+        try:
+            import json
+            from .. import report
+            self._known = {k['key'] for k in json.load(open(report.KNOWN)).get('findings', [])
+                           if k.get('status') == 'known' and k.get('property') == origin}
+        except Exception:      # noqa: BLE001
+            pass
+        self._origin = origin
         self.pid, self.tier, self.level = ck.pid, ck.tier, ck.level
         self.analysed = ck.analysed
         self.rules, self.notes, self.assumptions, self.not_decided, self.trusted_base = {}, [], [], [], []
         self.nhold = 0
+        self.per = {}
 
     def rule(self, rid, text):
         pass
@@ -40,17 +52,26 @@ class _Reeval:
     def floor(self, rule, what, count, minimum):
         return True
 
+    def _nid(self, rule, key):
+        return self._new(rule, key) if callable(self._new) else self._new
+
     def holds(self, rule, key, where='', detail='', **extra):
         if self._accept(rule, key):
             self.nhold += 1
+            n = self._nid(rule, key)
+            self.per[n] = self.per.get(n, 0) + 1
 
     def violation(self, rule, key, where='', detail='', **extra):
+        if self._accept(rule, key) and key in self._known:
+            self._ck.notes.append('%s re-evaluates %s %s: that instance is the recorded known finding of %s (reported there, not here)' % (
+                self._nid(rule, key), rule, key, self._origin))
+            return None
         if self._accept(rule, key):
-            return self._ck.violation(self._new, '%s:%s' % (rule, key), where, detail, **extra)
+            return self._ck.violation(self._nid(rule, key), '%s:%s' % (rule, key), where, detail, **extra)
 
     def broken(self, rule, key, where='', detail='', **extra):
         if self._accept(rule, key):
-            return self._ck.broken(self._new, '%s:%s' % (rule, key), where, detail, **extra)
+            return self._ck.broken(self._nid(rule, key), '%s:%s' % (rule, key), where, detail, **extra)
 
     def verdict(self, ok, rule, key, where='', detail='', **extra):
         return (self.holds if ok else self.violation)(rule, key, where, detail, **extra)
@@ -60,12 +81,23 @@ def reevaluate(ck, new_rule, module_name, accept, what):
     """decide under `new_rule` of the calling property the rule instances of another property's module that `accept`
     selects (the functions / tables the caller's behaviour rests on); `what` says why, for the evidence"""
     import importlib
+    if isinstance(ck, _Reeval):
+        return          # one level only: the caller's dependencies, not the dependencies of those (they are decided under their own property)
     mod = importlib.import_module('ufwsa.rules.' + module_name)
-    px = _Reeval(ck, new_rule, accept)
+    px = _Reeval(ck, new_rule, accept, module_name.upper())
     try:
         mod.run(px)
     except Exception as e:                                   # noqa: BLE001
         ck.broken(new_rule, 'reeval:' + module_name, '', '%s: %s' % (type(e).__name__, e))
+        return
+    if callable(new_rule):
+        # several rules of the caller decided by one run of the other module: `what` maps each to its reason; every one of
+        # them must have selected something
+        for n, w in what.items():
+            if px.per.get(n, 0) == 0:
+                ck.broken(n, 'reeval:' + module_name, '', 'no instance of %s selected (anchor vanished)' % module_name)
+            else:
+                ck.holds(n, 'reeval:' + module_name, '', '%s: %d rule instances of %s re-evaluated and hold' % (w, px.per[n], module_name.upper()))
         return
     if px.nhold == 0:
         ck.broken(new_rule, 'reeval:' + module_name, '', 'no instance of %s selected (anchor vanished)' % module_name)
